@@ -266,7 +266,7 @@ func GenPSet(r *Run, id uint) PSet {
 			R: []int{0, 1, 2}[r.Choose("r", 3)], P: []int{0, 1, 2}[r.Choose("p", 3)]}
 	}
 	return PSet{ID: id, Algo: algoArgon, Time: uint32(1 + r.Choose("time", 2)), Memory: []uint32{8, 16, 64}[r.Choose("mem", 3)],
-		Threads: []uint8{1, 2, 4}[r.Choose("thr", 3)], Length: []uint32{32, 16, 24, 64, 32, 3100, 4200}[r.Choose("len", 7)]}
+		Threads: []uint8{1, 2, 4}[r.Choose("thr", 3)], Length: []uint32{32, 16, 24, 64, 32, 3100, 4200, 8, 12}[r.Choose("len", 9)]}
 }
 
 // GenConfig draws a store configuration with 1..3 parameter sets and any default.
